@@ -226,13 +226,144 @@ fn judge(r: &Run, exp: &refsh::Outcome) -> Option<(String, String)> {
 
 pub fn replay(case: &serde_json::Value) -> i32 {
     let script = case["script"].as_str().unwrap();
-    let r = run_once(&Setup::script(script), &Default::default());
+    let mut opts = RunOpts::default();
+    if let Some(k) = case["inject_at_syscall"].as_u64() {
+        opts.inject = Some(crate::vsh::Inject { at: vec![(k as usize, 124)], pid: 2 });
+        opts.log_taps = true;
+    }
+    let r = run_once(&Setup::script(script), &opts);
+    for e in &r.trace {
+        println!("  [{} @{}] {}", e.pid, e.at_tap, e.text);
+    }
+    let main_taps: Vec<String> = r.tap_log.iter().filter(|(p, _)| *p == 2).enumerate().map(|(i, (_, n))| format!("{i}:{n}")).collect();
+    println!("system calls of the main shell: {}", main_taps.join(" "));
     println!("script:\n{script}\n--\nend={:?}\ntrace={:?}\nstderr={}\nexpected={}", r.end, r.trace_by_proc(), r.stderr, case["expected"]);
     1
 }
 
+// ---------------------------------------------------------------------------------------------
+// (d) an abort is never cancelled by a trap action that runs for a signal caught during the
+// failing command: scripts with a diverting (or plain) USR1 trap x failing commands x contexts,
+// one signal injected into the main shell at every system-call boundary.
+
+const TRAP_ACTIONS: &[&str] = &["return 0", "break", "continue", "p t", "s 0", "return 7", "p t; return"];
+/// (failing command, aborts only under errexit). Each traces `failing` while it is being
+/// expanded/executed, so a run that shows the marker has entered the failing command.
+const FAILERS: &[(&str, bool)] = &[
+    ("s 1 $(p failing)", true),
+    ("( p failing; exit 3 )", true),
+    ("s 0 | s 2 $(p failing)", true),
+    ("{ s 4 $(p failing); }", true),
+    ("s 1 $(p failing) 2>/dev/null", true),
+    (". ./nonexistent$(p failing)", false),
+    ("ro=2$(p failing)", false),
+    (": ${unset_var?$(p failing)}", false),
+    ("return$(p failing) x y", false),
+];
+const CONTEXTS_D: &[&str] = &[
+    "f() { for i in 1 2; do p pre; FAIL; p reached; done; p afterloop; }; f; p after",
+    "for i in 1 2; do p pre; FAIL; p reached; done; p after",
+    "f() { p pre; FAIL; p reached; }; g() { f; p ing; }; g; p after",
+    "f() { while p pre; do FAIL; p reached; break; done; p afterloop; }; f; p after",
+];
+
+fn dominance_scripts() -> Vec<(String, bool)> {
+    // (script, whether the USR1 action diverts)
+    let mut v = vec![];
+    for act in TRAP_ACTIONS {
+        for (fail, needs_errexit) in FAILERS {
+            for cx in CONTEXTS_D {
+                for errexit in [true, false] {
+                    if *needs_errexit && !errexit {
+                        continue;
+                    }
+                    let body = cx.replace("FAIL", fail);
+                    let e = if errexit { "set -e; " } else { "" };
+                    let diverting = act.contains("return") || act.contains("break") || act.contains("continue");
+                    v.push((format!("readonly ro=0\n{e}trap '{act}' USR1; trap 'p exit' EXIT\n{body}\n"), diverting));
+                }
+            }
+        }
+    }
+    v
+}
+
+/// Returns (runs, runs in which the failing command was entered, violation).
+fn dominance(ctx: &Ctx, script: &str, diverting_action: bool) -> (u64, u64) {
+    use crate::vsh::Inject;
+    let setup = Setup::script(script);
+    let usr1 = 124;
+    let base = run_once(&setup, &RunOpts { inject: Some(Inject { at: vec![], pid: 2 }), ..Default::default() });
+    let End::Exited(base_status) = base.end else {
+        ctx.violation("c10:dominance-baseline", &format!("undisturbed run ended {:?}", base.end), json!({"part": "d", "script": script}));
+        return (1, 0);
+    };
+    let main_markers = |r: &Run| -> Vec<String> { r.trace.iter().filter(|e| e.pid == 2).map(|e| e.text.split(':').next().unwrap_or("").to_string()).collect() };
+    let bm = main_markers(&base);
+    // the undisturbed run must abort in the failing command: pre, then only the EXIT trap
+    if base_status == 0 || bm.iter().filter(|m| *m == "exit").count() != 1 || bm.iter().any(|m| ["reached", "after", "afterloop", "ing"].contains(&m.as_str())) {
+        ctx.violation("c10:dominance-baseline", &format!("undisturbed run did not abort as documented: status {base_status}, main markers {bm:?}"), json!({"part": "d", "script": script}));
+        return (1, 0);
+    }
+    let k0 = base.trace.iter().find(|e| e.pid == 2 && e.text.starts_with("pre:")).map(|e| e.at_tap).unwrap_or(0);
+    let (mut runs, mut entered) = (1u64, 0u64);
+    for k in k0..base.target_taps + 2 {
+        let r = run_once(&setup, &RunOpts { inject: Some(Inject { at: vec![(k, usr1)], pid: 2 }), ..Default::default() });
+        runs += 1;
+        let case = || json!({"part": "d", "script": script, "inject_at_syscall": k});
+        if let Some(p) = &r.panic {
+            ctx.violation("c10:dominance-panic", &format!("panic: {p}"), case());
+            continue;
+        }
+        let exits = r.trace.iter().filter(|e| e.pid == 2 && e.text.starts_with("exit:")).count();
+        if exits > 1 {
+            ctx.violation("c10:dominance-exit-trap", &format!("EXIT trap ran {exits} times"), case());
+        }
+        let Some(pos) = r.trace.iter().position(|e| e.text.starts_with("failing:")) else {
+            continue; // the trap action diverted before the failing command was entered
+        };
+        entered += 1;
+        let later: Vec<String> = r.trace[pos + 1..].iter().filter(|e| e.pid == 2).map(|e| e.text.split(':').next().unwrap_or("").to_string()).collect();
+        let bad: Vec<&String> = later.iter().filter(|m| !["exit", "t"].contains(&m.as_str())).collect();
+        if !bad.is_empty() {
+            ctx.violation(
+                "c10:abort-cancelled-by-trap",
+                &format!("commands ran after the abort point: main shell traced {later:?} after the failing command (signal delivered at system call {k})"),
+                case(),
+            );
+            continue;
+        }
+        // A `return [n]` / `break` / `continue` action that happens to run while the EXIT trap is
+        // starting ends that trap action and, for `return n`, sets the exit status (it works like
+        // `exit n` there): only non-diverting actions must leave status and EXIT trap untouched.
+        if diverting_action {
+            continue;
+        }
+        if exits != 1 {
+            ctx.violation("c10:dominance-exit-trap", &format!("EXIT trap ran {exits} times in an aborting run"), case());
+        }
+        if r.end != End::Exited(base_status) {
+            ctx.violation(
+                "c10:abort-status-changed-by-trap",
+                &format!("shell ended {:?}; the undisturbed abort ends Exited({base_status})", r.end),
+                case(),
+            );
+        }
+    }
+    (runs, entered)
+}
+
 pub fn run(tier: Tier) -> i32 {
     let ctx = Ctx::new("C10", "exploration", tier);
+    let dscripts = dominance_scripts();
+    let d_runs = AtomicU64::new(0);
+    let d_entered = AtomicU64::new(0);
+    dscripts.par_iter().for_each(|(s, diverting)| {
+        let _g = case_guard(s.clone());
+        let (r, e) = dominance(&ctx, s, *diverting);
+        d_runs.fetch_add(r, Relaxed);
+        d_entered.fetch_add(e, Relaxed);
+    });
     let cs = cases(tier);
     let evals = AtomicU64::new(0);
     let skipped = AtomicU64::new(0);
@@ -277,11 +408,15 @@ pub fn run(tier: Tier) -> i32 {
         samples.offer(|| json!({"script": script, "expected_traces": format!("{:?}", exp.traces), "status": refsh::status_str(exp.status)}));
     });
     let cov = json!({
-        "evaluations": evals.load(Relaxed),
-        "distinct_nontrivial": nontrivial.load(Relaxed),
+        "evaluations": evals.load(Relaxed) + d_runs.load(Relaxed),
+        "distinct_nontrivial": nontrivial.load(Relaxed) + d_entered.load(Relaxed),
         "rule": format!("every C02 program of at most {} nodes, (a) as is with errexit off/on (+ job control on when it contains a pipeline, + a syntax error on a later line for small ones), (b) with each of 13 failure categories (not found; redirection error on regular built-in / function / compound / special built-in / command-wrapped special; read-only assignment prefixed to special / regular / nothing; ${{u?}}; unset under nounset; special built-in usage error, plain and via `command`) planted at every probe position, errexit off/on, (c) errexit toggled mid-script; every script has an EXIT trap and a final probe. Oracle: refsh + the documented consequences of shell errors; statuses the manual only calls non-zero are compared as non-zero. Non-trivial = a failure is planted or the reference run aborts before the final probe; distinct by script.", tier.pick(3, 4)),
         "samples": samples.take(),
         "cases": cs.len(),
+        "part_d_trap_vs_abort_scripts": dscripts.len(),
+        "part_d_runs_one_signal_at_each_syscall": d_runs.load(Relaxed),
+        "part_d_runs_where_failing_command_was_entered": d_entered.load(Relaxed),
+        "part_d_rule": "trap action x failing command x context (function, loop, nested function) x errexit; SIGUSR1 injected into the main shell at every system-call boundary after the traps are set; whenever the failing command was entered no main-shell command other than the trap action and the EXIT trap may run afterwards, and, for actions that do not themselves divert, the EXIT trap runs exactly once and the exit status equals that of the undisturbed abort",
         "cases_skipped_unspecified": skipped.load(Relaxed),
         "cases_where_the_script_aborts_early": aborting.load(Relaxed),
         "exhaustive": true,
